@@ -633,6 +633,11 @@ def dispatch(E, op, args, kwargs, node=None):
 
 
 def call_aten(E, op, args, kwargs, node=None):
+    if "." in op.name and op.name.split(".")[0] in ("quanto", "quanto_py", "quanto_ext"):
+        # the overload packet of a custom op (reached again from a fallback with plain arguments)
+        from .torchmodel import call_custom_op
+        lib_, name_ = op.name.split(".", 1)
+        return call_custom_op(E, lib_, name_, list(args), dict(kwargs))
     if has_wrapper(args) or has_wrapper(kwargs):
         return dispatch(E, op, list(args), kwargs, node)
     from . import cap, tm_index
